@@ -1244,6 +1244,15 @@ def run(ctx):
                      case=dict(pad=pad, bytes=hx, ddl=dv, go=gvv, where=where), nofail=True,
                      correspondence="Model.RefDecode.dec_string vs decodeFixedString (theorems C06_string_pad_*)")
         viol.append(v)
+    # reader parsers against the specification decoders on the structures of reference files (side obligation of the
+    # theorems C06_reader_* in Props/C06Reader.v; see c06reader.py)
+    from props import c06reader
+    rs = c06reader.tie(ctx)
+    viol += rs["violations"]
+    known_lines += rs["known"]
+    if rs["coverage"]["structures_evaluated"] < 300:
+        viol.append(dict(what="reader-vs-specification tie: only %d structures of reference files were evaluated" % rs["coverage"]["structures_evaluated"],
+                         nofail=True, correspondence="reference corpus discovery (tools/props/c05.py reference_structs)"))
     # the quantifier must not silently shrink
     if summ.get("files_with_ddl", 0) < 100 or C.stats["values_compared"] < 10000:
         viol.append(dict(what="corpus coverage collapsed: %d files with DDL, %d values compared" % (summ.get("files_with_ddl", 0), C.stats["values_compared"]),
@@ -1261,7 +1270,8 @@ def run(ctx):
                known_root_causes={rc: len(v) for rc, v in by_rc.items()},
                model_evaluations_in_coq=ncoq, go_wall_s=round(go_wall, 1), exhaustive=(ctx.tier == "thorough"),
                element_limit=(QUICK_LIMIT if ctx.tier == "quick" else 0),
-               programs=summ.get("corpus_files", 0), disagreements_checked=ncoq)
+               programs=summ.get("corpus_files", 0), disagreements_checked=ncoq,
+               reader_vs_specification=rs["coverage"])
     return dict(violations=viol, known=known_lines, coverage=cov)
 
 
